@@ -47,9 +47,18 @@ def run_auto(case, evaluator=None):
     import gcmpy
     from gcmpy.message_passing.equations.automated_equation import AutomatedEquation
     tr = {"kind": "poly", "what": "automated", "case": case, "V": list(case["V"]), "E": [list(e) for e in case["E"]],
-          "root": case["root"], "terms": [], "malformed": False, "raised": ""}
+          "root": case["root"], "terms": [], "malformed": False, "raised": "",
+          "zero_u": [v for v in case.get("zero_u", []) if v != case["root"]], "one_u": [v for v in case.get("one_u", []) if v != case["root"]]}
     ae = evaluator or AutomatedEquation()
     us = {v: Poly.var("u%d" % v) for v in case["V"] if v != case["root"]}
+    # some vertices carry the NUMBERS 0 or 1 instead of an indeterminate (u = 0 and coinciding u values are legal inputs):
+    # the result must be the exact polynomial with those values substituted
+    for v in tr["zero_u"]:
+        us[v] = 0
+    for v in tr["one_u"]:
+        if v not in tr["zero_u"]:
+            us[v] = 1
+    tr["one_u"] = [v for v in tr["one_u"] if v not in tr["zero_u"]]
     try:
         with watchdog(60):
             # the focal vertex is given as an EQUAL id, not as the graph's own node object (ids above 256 are not interned)
